@@ -58,6 +58,7 @@ def sanitize(s):
 
 def run_harness(builder, item, tier, deadline_s, outdir):
     exe = builder.exe(item["exe"])
+    os.makedirs(outdir, exist_ok=True)
     out = os.path.join(outdir, sanitize(item["harness"] + "." + ",".join(map(str, item.get("args", [])))) + ".json")
     bound = item.get("thorough" if tier == "thorough" else "quick", item.get("quick", 2))
     cmd = [exe, "--run", item["harness"], "--bound", str(bound), "--workers", str(item.get("workers", 16)),
@@ -85,8 +86,137 @@ def run_harness(builder, item, tier, deadline_s, outdir):
     return rep, None
 
 
+HDR_SKIP = {
+    # included from the middle of sender_concepts.hpp (circular by design); never meant to be included first
+    "unifex/tracing/inject_async_stack.hpp",
+}
+
+
+def header_list():
+    inc = os.path.join(vbuild.REPO, "include")
+    out = []
+    for root, _dirs, files in os.walk(os.path.join(inc, "unifex")):
+        for f in files:
+            if f.endswith(".hpp"):
+                rel = os.path.relpath(os.path.join(root, f), inc)
+                if "/win32/" in rel or rel.endswith("detail/prologue.hpp") or rel.endswith("detail/epilogue.hpp") or rel in HDR_SKIP:
+                    continue
+                out.append(rel)
+    return sorted(out)
+
+
+def header_compiles(cfg, hdr):
+    d = os.path.join(VERIF, "build", "hdr", cfg)
+    os.makedirs(d, exist_ok=True)
+    src = os.path.join(d, sanitize(hdr) + ".cpp")
+    with open(src, "w") as f:
+        f.write("#include <%s>\n" % hdr)
+    cmd = ["g++", "-fsyntax-only", "-w", "-I" + os.path.join(vbuild.REPO, "include")] + vbuild.CONFIGS[cfg] + [src]
+    p = subprocess.run(cmd, stdout=subprocess.PIPE, stderr=subprocess.STDOUT, text=True)
+    return p.returncode == 0, p.stdout[-2500:], " ".join(cmd)
+
+
+def header_matrix(configs, base_of):
+    """every public header, included on its own, must compile in configuration X whenever it compiles in the
+    baseline configuration of the same language level (the one the pinned suite is built in / its C++20 twin).
+    Returns (n_compiles, [(cfg, hdr, msg, cmd)])"""
+    import concurrent.futures as cf
+    import hashlib
+    hdrs = header_list()
+    need = sorted(set(configs) | {base_of(c) for c in configs})
+    # results are cached under the SHA-256 of the whole include tree: any edit to any header recompiles everything
+    th = hashlib.sha256()
+    inc = os.path.join(vbuild.REPO, "include")
+    for root, _d, files in sorted(os.walk(inc)):
+        for f in sorted(files):
+            th.update(os.path.relpath(os.path.join(root, f), inc).encode())
+            th.update(open(os.path.join(root, f), "rb").read())
+    th.update(repr(sorted(vbuild.CONFIGS.items())).encode())
+    cpath = os.path.join(VERIF, "build", "hdr", "cache.json")
+    try:
+        cache = json.load(open(cpath))
+        if cache.get("tree") != th.hexdigest():
+            cache = {"tree": th.hexdigest(), "res": {}}
+    except Exception:  # noqa: BLE001
+        cache = {"tree": th.hexdigest(), "res": {}}
+    res = {}
+    todo = []
+    for c in need:
+        for h in hdrs:
+            k = c + "|" + h
+            if k in cache["res"]:
+                res[(c, h)] = tuple(cache["res"][k])
+            else:
+                todo.append((c, h))
+    with cf.ThreadPoolExecutor(16) as pool:
+        futs = {pool.submit(header_compiles, c, h): (c, h) for c, h in todo}
+        for f in cf.as_completed(futs):
+            res[futs[f]] = f.result()
+            cache["res"]["|".join(futs[f])] = list(f.result())
+    os.makedirs(os.path.dirname(cpath), exist_ok=True)
+    json.dump(cache, open(cpath, "w"))
+    bad = []
+    for c in configs:
+        for h in hdrs:
+            if res[(base_of(c), h)][0] and not res[(c, h)][0]:
+                bad.append((c, h, res[(c, h)][1], res[(c, h)][2]))
+    return len(res), len(hdrs), bad
+
+
+def base_config(cfg):
+    return "c17rel" if cfg.startswith("c17") else "c20rel"
+
+
+def run_config_diff(r):
+    """replay of a configuration difference: rebuild both configurations, rerun the harness, compare digests"""
+    reps = {}
+    for cfg in r["configs"]:
+        b = vbuild.Builder("asan", cfg)
+        errs = b.build([exe_spec(r["exe"])])
+        if errs:
+            print("\n".join(errs))
+            return 2
+        item = {"exe": r["exe"], "harness": r["harness"], "args": r["args"], "quick": r["bound"]}
+        rep, err = run_harness(b, item, "quick", 600, os.path.join(VERIF, "build", "run", "replay"))
+        if err:
+            print(err)
+            return 2
+        reps[cfg] = rep
+    a, b_ = r["configs"]
+    print("%s: %s executions=%d digest=%s | %s executions=%d digest=%s" % (
+        r["harness"], a, reps[a]["bounds"][-1]["executions"], reps[a]["outcome_digest"], b_, reps[b_]["bounds"][-1]["executions"], reps[b_]["outcome_digest"]))
+    for line in diff_outcomes(reps[a], reps[b_], a, b_)[:10]:
+        print("  " + line)
+    if reps[a]["outcome_digest"] != reps[b_]["outcome_digest"]:
+        return 1
+    return 0
+
+
+def diff_outcomes(ra, rb, na, nb):
+    oa, ob = ra.get("outcomes", {}), rb.get("outcomes", {})
+    out = []
+    for k in sorted(set(oa) | set(ob)):
+        if oa.get(k, 0) != ob.get(k, 0):
+            out.append("%s x%d in %s, x%d in %s" % (k[:400], oa.get(k, 0), na, ob.get(k, 0), nb))
+    return out
+
+
 def replay(path):
     r = json.load(open(path))
+    if r.get("kind") == "config_diff":
+        rc = run_config_diff(r)
+        if rc == 1:
+            print("VIOLATION property=%s replay=%s" % (r["property"], path))
+        return rc
+    if r.get("kind") == "header":
+        ok, msg, cmd = header_compiles(r["config"], r["header"])
+        okb, _m, _c = header_compiles(base_config(r["config"]), r["header"])
+        print(cmd)
+        print(msg)
+        if okb and not ok:
+            print("VIOLATION property=%s replay=%s" % (r["property"], path))
+            return 1
+        return 0
     b = vbuild.Builder(r.get("flavour", "asan"), r.get("config", "verif"))
     errs = b.build([exe_spec(r["exe"])])
     if errs:
@@ -124,12 +254,21 @@ def main():
     total_deadline = a.deadline or spec.get("deadline", {}).get(tier, 240 if tier == "quick" else 1500)
     t0 = time.time()
     # ---- build ----
-    builder = vbuild.Builder("asan", "verif")
-    names = sorted({i["exe"] for i in items})
-    errs = builder.build([exe_spec(n) for n in names])
-    if errs:
+    configs = spec.get("configs", {}).get(tier) or ["verif"]
+    builders = {c: vbuild.Builder("asan", c) for c in configs}
+    build_fail = []
+
+    def build_cfg(c):
+        names = sorted({i["exe"] for i in items if not (i.get("cxx20") and c.startswith("c17"))})
+        return c, builders[c].build([exe_spec(n) for n in names])
+    import concurrent.futures as cf
+    with cf.ThreadPoolExecutor(3) as pool:
+        for c, errs in pool.map(build_cfg, configs):
+            if errs:
+                build_fail.append((c, errs))
+    if build_fail and "configs" not in spec:
         print("BUILD-ERROR (engine error, no verdict):")
-        print("\n".join(errs))
+        print("\n".join(build_fail[0][1]))
         sys.exit(2)
     build_s = time.time() - t0
     outdir = os.path.join(VERIF, "build", "run", prop + "-" + tier)
@@ -139,25 +278,83 @@ def main():
         k = seed % max(1, len(items))
         items = items[k:] + items[:k]
     reports, engine_errors = [], []
-    weights = [i.get("weight", 1.0) for i in items]
-    for n, item in enumerate(items):
+    failed_cfgs = {c for c, _e in build_fail}
+    work = [(c, i) for c in configs if c not in failed_cfgs for i in items if not (i.get("cxx20") and c.startswith("c17"))]
+    n_expected = len([(c, i) for c in configs for i in items if not (i.get("cxx20") and c.startswith("c17"))])
+    weights = [i.get("weight", 1.0) for _c, i in work]
+    for n, (cfg, item) in enumerate(work):
         left = total_deadline - (time.time() - t0)
         share = left * weights[n] / max(1e-9, sum(weights[n:]))
-        rep, err = run_harness(builder, item, tier, max(8.0, share), outdir)
+        rep, err = run_harness(builders[cfg], item, tier, max(8.0, share), os.path.join(outdir, cfg) if len(configs) > 1 else outdir)
         if err:
-            engine_errors.append(err)
+            engine_errors.append("[%s] %s" % (cfg, err))
             continue
         rep["_item"] = item
+        rep["_config"] = cfg
         reports.append(rep)
     # ---- verdicts ----
     known, _fixed = load_known()
     viol_lines, known_lines = [], []
     nviol = 0
     repdir = os.path.join(VERIF, "replays", prop)
+    extra_cov = {}
+
+    def report(sig, payload, msg):
+        """one violation signature: known finding or VIOLATION line + replay file"""
+        nonlocal nviol
+        kn = [k for k in known if k[0] == prop and k[1] == sig]
+        if kn:
+            known_lines.append("KNOWN-FINDING: property=%s %s [%s]" % (prop, kn[0][2], sig))
+            return
+        nviol += 1
+        os.makedirs(repdir, exist_ok=True)
+        path = os.path.join(repdir, sanitize(sig) + ".json")
+        payload = dict(payload)
+        payload.update({"property": prop, "signature": sig, "msg": msg, "how_to_replay": "python3 tools/check.py %s --replay %s" % (prop, path)})
+        json.dump(payload, open(path, "w"), indent=1)
+        viol_lines.append("VIOLATION property=%s replay=%s" % (prop, path))
+        sys.stderr.write("  %s: %s\n" % (sig, msg[:600]))
+
+    if "configs" in spec:
+        # a configuration that does not build at all is a difference in behaviour (nothing can be compared)
+        for c, errs in build_fail:
+            report("build|%s" % c, {"kind": "build", "config": c}, "configuration %s does not compile: %s" % (c, errs[0][-1500:]))
+        if spec.get("header_matrix"):
+            ncomp, nhdr, bad = header_matrix(configs, base_config)
+            extra_cov["header_matrix"] = {"headers": nhdr, "configurations": sorted(set(configs) | {base_config(c) for c in configs}), "compilations": ncomp,
+                                         "oracle": "a header that compiles on its own in the baseline configuration of its language level compiles in every configuration",
+                                         "failing": [[c, h] for c, h, _m, _cmd in bad]}
+            for c, h, m, cmd in bad:
+                report("hdr|%s:%s" % (c, h), {"kind": "header", "config": c, "header": h, "cmd": cmd}, "%s does not compile in %s but does in %s: %s" % (h, c, base_config(c), m[-800:]))
+        # differential comparison of the recorded traces across configurations
+        groups = {}
+        for rep in reports:
+            if rep["_item"].get("diff"):
+                groups.setdefault((rep["harness"], tuple(rep["args"])), []).append(rep)
+        ndiff = 0
+        diff_rows = []
+        for (hname, hargs), reps in sorted(groups.items()):
+            ref = reps[0]
+            row = {"harness": hname, "args": list(hargs), "digests": {r["_config"]: r["outcome_digest"] for r in reps},
+                   "executions": {r["_config"]: sum(b["executions"] for b in r["bounds"]) for r in reps}}
+            diff_rows.append(row)
+            if not all(r["exhaustive"] for r in reps):
+                continue        # cut by the deadline: nothing comparable is claimed (exhaustive=false in the evidence)
+            for r in reps[1:]:
+                ndiff += 1
+                if r["outcome_digest"] != ref["outcome_digest"]:
+                    d = diff_outcomes(ref, r, ref["_config"], r["_config"])
+                    report("%s.%s|config-diff:%s!=%s" % (hname, "_".join(map(str, hargs)), ref["_config"], r["_config"]),
+                           {"kind": "config_diff", "exe": r["_item"]["exe"], "harness": hname, "args": list(hargs), "configs": [ref["_config"], r["_config"]],
+                            "bound": r["_bound_requested"], "first_differences": d[:20]},
+                           "observable traces differ between %s and %s: %s" % (ref["_config"], r["_config"], "; ".join(d[:3])))
+        extra_cov["config_diff"] = {"pairs_compared": ndiff, "rows": diff_rows}
     for rep in reports:
         hprops = rep["props"].split(",")
         for f in rep["failures"]:
             fprops = hprops if f["props"] in ("*", "") else f["props"].split(",")
+            if "configs" in spec:
+                fprops = fprops + [prop]    # any failure under a non-default configuration is a configuration difference
             if f["props"] == "!":
                 engine_errors.append("harness %s: %s (%s)" % (rep["harness"], f["msg"], f["key"]))
                 continue
@@ -170,11 +367,11 @@ def main():
                 continue
             nviol += 1
             os.makedirs(repdir, exist_ok=True)
-            path = os.path.join(repdir, sanitize(sig + ("." + "_".join(map(str, rep["args"])) if rep["args"] else "")) + ".json")
+            path = os.path.join(repdir, sanitize(sig + ("." + "_".join(map(str, rep["args"])) if rep["args"] else "") + ("." + rep["_config"] if rep["_config"] != "verif" else "")) + ".json")
             json.dump({"property": prop, "exe": rep["_item"]["exe"], "harness": rep["harness"], "args": rep["args"],
                        "bound": f["bound"], "choices": f["choices"], "key": f["key"], "msg": f["msg"], "signature": sig,
                        "outcome": f["outcome"], "failing_schedules": f["count"], "detail": f["detail"],
-                       "flavour": "asan", "config": "verif",
+                       "flavour": "asan", "config": rep["_config"],
                        "how_to_replay": "python3 tools/check.py %s --replay %s" % (prop, path)}, open(path, "w"), indent=1)
             viol_lines.append("VIOLATION property=%s replay=%s" % (prop, path))
             sys.stderr.write("  %s: %s\n" % (sig, f["msg"][:300]))
@@ -183,12 +380,12 @@ def main():
     ev_trans = sum(b["transitions"] for r in reports for b in r["bounds"])
     ev_execs = sum(b["executions"] for r in reports for b in r["bounds"])
     distinct = sum(r["distinct_outcomes"] for r in reports)
-    exhaustive = all(r["exhaustive"] for r in reports) and not engine_errors and len(reports) == len(items)
+    exhaustive = all(r["exhaustive"] for r in reports) and not engine_errors and len(reports) == n_expected
     per = []
     samples = []
     for r in reports:
         last = [b for b in r["bounds"] if b["complete"]]
-        per.append({"harness": r["harness"], "args": r["args"], "sequential": r["sequential"],
+        per.append({"harness": r["harness"], "args": r["args"], "config": r["_config"], "sequential": r["sequential"],
                     "bound_requested": r["_bound_requested"], "bound_completed": (last[-1]["bound"] if last else None),
                     "executions": sum(b["executions"] for b in r["bounds"]), "states": r["bounds"][-1]["states"] if r["bounds"] else 0,
                     "transitions": sum(b["transitions"] for b in r["bounds"]), "pruned_equivalent": sum(b["pruned"] for b in r["bounds"]),
@@ -210,7 +407,7 @@ def main():
                     "prefixes (choice-tree nodes for sequential harnesses); distinct_nontrivial = number of distinct observed outcome "
                     "vectors (harness notes) summed over harnesses",
             "exhaustive": bool(exhaustive), "harnesses": per, "build_s": round(build_s, 1),
-            "deadline_s": total_deadline, "engine_errors": engine_errors,
+            "deadline_s": total_deadline, "engine_errors": engine_errors, "configurations": configs, **extra_cov,
         },
         "assumptions": spec.get("assumptions", []) + [
             "sequentially consistent interleavings of the hooked synchronisation operations (atomics, mutexes, condition variables, threads, clock)",
@@ -222,6 +419,8 @@ def main():
         os.makedirs(os.path.join(VERIF, "evidence"), exist_ok=True)
         json.dump(ev, open(os.path.join(VERIF, "evidence", prop + ".json"), "w"), indent=1)
     for r in per:
+        if len(configs) > 1:
+            r = dict(r, harness=r["harness"] + "@" + r["config"])
         print("  %-28s args=%-10s p<=%s execs=%-8d states=%-8d outcomes=%-5d %s %.1fs %s" % (
             r["harness"], ",".join(map(str, r["args"])), r["bound_completed"], r["executions"], r["states"], r["distinct_outcomes"],
             "complete" if r["exhaustive_within_bound"] else "CUT", r["wall_s"], " ".join(r["failure_signatures"])))
